@@ -8,7 +8,27 @@ claim("C09", "effect/ownership abstract interpretation over SSA (no write to sha
       STDNOTE + "Field-based heap summary (sound over-approximation). go-diff v1.1.0 is analysed from source in the module cache.",
       "DESIGN.md §3 E1, §4 C09")
 
+claim("C04", "effect analysis + map-order taint with comparator totality by finite relation enumeration + trace non-interference (control dependence) + nondeterminism-source and token-id-use rules",
+      "Decides, for all call histories, map seeds, trace settings and inputs, the structural clauses: Match/MatchFrom/Normalize write nothing that outlives the call and no entry point writes the caller's bytes; trace predicates only guard observer calls; every map iteration in the Match tree is order-insensitive or its output passes a total sort (3^k orderings enumerated) before being observed; no wall-clock/random source influences results; token ids are used through equality only; target words keep their identity. Two clauses fail today and are listed as known findings (go-diff's 1 s DiffTimeout; out-of-vocabulary words rendered as a placeholder). Bit-level float behaviour and the numeric pipeline are not decided.",
+      STDNOTE + "Audited assumptions printed in the evidence: functionally-dependent fields of matchRange at the sort in targetMatchedRanges; go-diff uses rune equality only; identity-append exception in go-diff's diffHalfMatchI (verified structurally on every run).",
+      "DESIGN.md §3 E1-E3,E5, §4 C04")
+
+claim("C14", "lock-set (must-hold) dataflow with a guarded-by table, check-then-act acquisition identity, write-once lazy-init typestate, plus effect analysis enumerating every shared write reachable from the v1 entry points",
+      "Decides on every interleaving: each access to Classifier.values holds muValues in the needed mode; a write decided by a read of the same guarded location shares its lock acquisition; knownValue.set is initialised once under the write lock behind a nil test in the same critical section and read only behind it; queue operations in spawned goroutines hold the queue's mutex; no other write to memory shared between callers is reachable from MultipleMatch/NearestMatch/AddValue/License.*. Does not decide that concurrent results equal sequential ones.",
+      STDNOTE + "Guarded-by table confirmed by reading (printed as assumption); sync primitives give the documented happens-before.",
+      "DESIGN.md §3 E6, §4 C14")
+
+claim("C10", "NonEmpty obligations (dominating length guards, construction, provenance) + audited panic/MustCompile sites + loop-progress dominance",
+      "Decides for all inputs: every first/last/constant-position index or slice expression of v2 and v2/assets is guarded; explicit panics and regexp.MustCompile reachable from the API are audited; every iteration of the tokenizer's read and rune loops consumes input. Does not decide non-constant index arithmetic or termination of the numeric loops (stated in DESIGN.md).",
+      STDNOTE + "Provenance rules (docs-key format, embedded asset tree shape) are re-verified from the sources on every run.",
+      "DESIGN.md §3 E4, §4 C10")
+
+claim("C03", "dominating-guard facts with linear forms, struct-literal field provenance, comparator first-key enumeration, key-format/decoder table agreement, line-counter credit typestate",
+      "Decides for all inputs and thresholds: the Confidence stored in every license match was compared >= threshold by a dominating branch; the span guard equals EndTokenIndex-StartTokenIndex+1 > 0; Start/EndLine are the lines of exactly those tokens of this call's document; results are an order-preserving filter of a slice sorted with Confidence as primary descending key; (MatchType,Name,Variant) are decoded from the key that was scored and the key format agrees with its decoders; Copyright literals are well formed; the line counter advances at most once per rune with paired deferred increments. Does not decide Confidence <= 1.0.",
+      STDNOTE,
+      "DESIGN.md §3 E4, §4 C03")
+
 _pending = "check not built yet in this round (planned: see DESIGN.md §4); not claimed until its rules run against /repo"
-for _id in ["C01","C02","C03","C04","C05","C06","C08","C10","C11","C12","C13","C14","C15","C16","C17","C18","C19","C20"]:
+for _id in ["C01","C02","C05","C06","C08","C11","C12","C13","C15","C16","C17","C18","C19","C20"]:
     na(_id, _pending)
 na("C07", "quantifies over the numeric behaviour of the sliding-window density, offset clamping and error-margin fusion at document edges; no clause of it is visible in the shape of the code and any proxy would be a frozen fragment (DESIGN.md §4 C07)")
